@@ -241,7 +241,11 @@ pub fn push_to_boundary(t: &mut Tape, g: &mut G) -> Option<(usize, f64)> {
         return None;
     }
     let e = cands[t.below(cands.len())];
-    let target = match t.below(8) {
+    let target = match t.below(12) {
+        8 => 1.1102230246251565e-16,   // 2^-53: barely convergent
+        9 => 8.673617379884035e-19,    // 2^-60
+        10 => -1.1102230246251565e-16,
+        11 => 1e-30,
         0 => 1.0 / 64.0,
         1 => -1.0 / 64.0,
         2 => 0.0,
@@ -683,7 +687,9 @@ pub fn gen_point(t: &mut Tape, g: &G, prof: &PointProfile) -> (Vec<f64>, Vec<&'s
             2 => (0.3 + 0.7 * t.unit()).powf(om.max(1e-3)).clamp(1e-300, ONE_M),
             _ => {
                 classes.push("xi:tiny");
-                10f64.powf(-t.uniform(3.0, 300.0))
+                // exponent concentrated at 3..30 with a tail down to 1e-300
+                let r = t.unit();
+                10f64.powf(-(3.0 + 297.0 * r * r * r * r))
             }
         };
         x[2 * step + 1] = xi;
@@ -699,7 +705,7 @@ pub fn gen_point(t: &mut Tape, g: &G, prof: &PointProfile) -> (Vec<f64>, Vec<&'s
     while i < dim {
         let a = if t.chance(prof.bm_extreme) {
             classes.push("bm:extreme");
-            *t.pick(&[1e-300, ONE_M, TWO_M53, 1e-17, 0.5])
+            *t.pick(&[1e-300, ONE_M, TWO_M53, 1e-17, 0.5, 5e-324, 1e-310, 2.2250738585072014e-308, 1.0 - 2.0 * TWO_M53, 1e-320])
         } else {
             t.unit().max(TWO_M53)
         };
